@@ -151,6 +151,13 @@ Section Typing.
     | _ => None
     end.
 
+  (* the value of member m of enum e (the first member of that name) *)
+  Definition enum_member_val (e m : string) : option Z :=
+    match get_type A e with
+    | Some (TEnum en) => match assoc m (en_variants en) with Some (VNum z) => Some z | _ => None end
+    | _ => None
+    end.
+
   (* does the case label l select the discriminant value d? *)
   Definition label_selects (l : string) (d : xval) : bool :=
     match get_const A l with
@@ -163,6 +170,9 @@ Section Typing.
     | Some (EnumValue e m) =>
       match d with
       | XEnum e' m' _ => (String.eqb e e' && String.eqb m m')%bool
+      (* an enum member used as a label of an integer discriminant stands for its value *)
+      | XU32 n => match enum_member_val e m with Some z => Z.eqb z (Z.of_N n) | None => false end
+      | XI32 x => match enum_member_val e m with Some z => Z.eqb z x | None => false end
       | _ => false
       end
     | None =>
